@@ -37,7 +37,10 @@ Oracle formulations (DESIGN.md, C03, corrected false alarms are heeded):
   * a red `space-breaks-at-spaces/next-to-wide-char` is the literal statement ("breaks only at spaces
     whenever every word fits", word = run of non-space characters) against urwid's CJK rule that a line
     may break before/after any double-width character; it is kept apart so that the decision on it does
-    not blur the clause for ordinary words.
+    not blur the clause for ordinary words.  Its failure detail carries `wide_breaks`: which of urwid's two CJK
+    rules explains the offending breaks ('before-wide', 'after-wide', see _wide_break_kind) or 'other'; the known
+    finding C03-KF1 covers the first two only.  `random-long-texts` reports a case under its first red clause, this
+    clause last, so that the known finding cannot absorb a case that breaks something else as well.
 The `[...]` label in a "raised" reason and the `failure_summary` are diagnostics, not part of the oracle.
 """
 from __future__ import annotations
@@ -290,6 +293,31 @@ def _cause(exc):
     return "other"
 
 
+KF1_CLAUSE = "space-breaks-at-spaces/next-to-wide-char"
+
+
+def _wide_break_kind(m, lines, k, p, width):
+    """Which of urwid's two CJK line-breaking rules (known finding C03-KF1) explains the break after laid-out
+    line k, in front of character p.  A label for the failure detail (`wide_breaks`), not part of the oracle:
+      'before-wide'  the character after the break is double-width and is the first one that does not fit
+                     ('perfect next wide' in calculate_text_segments);
+      'after-wide'   the character before the break is double-width and no later break opportunity exists: from
+                     the break up to and including the first character that does not fit there is no space and no
+                     double-width character ('wrap after wide char');
+      'other'        neither -- a break next to a double-width character that the CJK rules do not explain."""
+    lw = sum(m.cols(a, e) for a, e in lines[k]["ranges"])
+    if p < m.n and m.kind[p] == "w" and lw + m.width[p] > width:
+        return "before-wide"
+    if p > 0 and m.kind[p - 1] == "w":
+        q, c = p, lw
+        while q < m.n and m.kind[q] in "nz" and c + m.width[q] <= width:
+            c += m.width[q]
+            q += 1
+        if q < m.n and m.kind[q] in "nz":
+            return "after-wide"
+    return "other"
+
+
 def judge(m, mode, width, wrap, align, obs=None):
     """-> dict clause -> (ok, nontrivial, why). Only the clauses that apply to the case are present."""
     if obs is None:
@@ -361,7 +389,7 @@ def judge(m, mode, width, wrap, align, obs=None):
             else:
                 every_word_fits = all(w <= width for w in m.word_widths)
                 if every_word_fits:
-                    bad_plain, bad_wide = [], []
+                    bad_plain, bad_wide, wide_kinds = [], [], set()
                     has_wide_break = False
                     for k, b in enumerate(bounds):
                         if b[0] != "wrap" or b[2]:
@@ -372,11 +400,19 @@ def judge(m, mode, width, wrap, align, obs=None):
                         at_space = before == "s" or after == "s"
                         next_to_wide = before == "w" or after == "w"
                         has_wide_break = has_wide_break or next_to_wide
+                        if not at_space and next_to_wide:
+                            wide_kinds.add(_wide_break_kind(m, lines, k, p, width))
                         if not at_space:
                             (bad_wide if next_to_wide else bad_plain).append(f"break after line {k} falls between characters {p - 1} ({before!r}) and {p} ({after!r}), inside a word, although every word fits (word widths {m.word_widths})")
                     out["space-breaks-at-spaces"] = (not bad_plain, n_wraps > 0, "; ".join(bad_plain))
                     if has_wide_break:
-                        out["space-breaks-at-spaces/next-to-wide-char"] = (not bad_wide, True, "; ".join(bad_wide))
+                        # the reason starts with the kinds of the offending breaks (see _wide_break_kind), so that
+                        # failures the CJK rules do not explain form a group of their own (the signature is cut
+                        # from the start of the reason) and the known finding C03-KF1 can be told apart from them
+                        kinds = ",".join(sorted(wide_kinds))
+                        if bad_wide:
+                            obs["wide_breaks"] = kinds
+                        out[KF1_CLAUSE] = (not bad_wide, True, f"[{kinds}] " + "; ".join(bad_wide) if bad_wide else "")
     elif not wrapping:
         ref = window_rows if wrap == "clip" else (lambda m_, a, b, w, al: ellipsis_rows(m_, a, b, w, al, mode))
         bad = []
@@ -410,6 +446,8 @@ def detail(cfg, m, width, wrap, align, why, obs, clause=None):
     for k in ("layout", "rows", "exc"):
         if k in obs:
             d[k] = repr(obs[k])
+    if clause == KF1_CLAUSE and "wide_breaks" in obs:
+        d["wide_breaks"] = obs["wide_breaks"]
     if "layout" not in obs and "layout2" in obs:
         d["layout"] = repr(obs["layout2"])
     d["repro"] = f"urwid.set_encoding({cfg[0]!r}); t = urwid.Text({m.text!r}, align={align!r}, wrap={wrap!r}); t.render(({width},)).text"
@@ -456,7 +494,7 @@ def _task(args):
                             continue
                         res, obs = judge(m, mode, width, wrap, align)
                         for clause, (ok, nontrivial, why) in res.items():
-                            tallies[clause].case(ok, lambda: detail(cfg, m, width, wrap, align, why, obs), nontrivial, sample)  # noqa: B023
+                            tallies[clause].case(ok, lambda: detail(cfg, m, width, wrap, align, why, obs, clause=clause), nontrivial, sample)  # noqa: B023
             CanvasCache.clear()
 
     _with_encoding(enc, body)
@@ -482,6 +520,10 @@ def _random_task(args):
             m = TextModel(classes, enc, as_bytes, pool)  # noqa: B023
             res, obs = judge(m, mode, width, wrap, align)  # noqa: B023
             bad = [(c, why) for c, (ok, _nt, why) in res.items() if not ok]
+            # one failure is reported per case, under its first red clause: the clause of the known finding
+            # C03-KF1 goes last, so that a case that ALSO breaks another clause is reported under that one
+            # and is not absorbed by the known finding
+            bad.sort(key=lambda cw: cw[0] == KF1_CLAUSE)
             tally.case(not bad, lambda: detail(cfg, m, width, wrap, align, bad[0][1], obs, clause=bad[0][0]), True, {"enc": enc, "classes": classes, "width": width, "wrap": wrap, "align": align})  # noqa: B023
 
         _with_encoding(enc, body)
